@@ -737,7 +737,7 @@ func (fr *Frame) indexVal(s *State, base, idx *Val, pos token.Pos) *Val {
 			return fr.readFact(s, &Val{T: u.Elem(), S: fmt.Sprintf("(seq.nth %s %s)", base.S, idx.S)})
 		}
 		hn, hs := fr.eng.elemHeap(u.Elem())
-		return fr.readFact(s, &Val{T: u.Elem(), S: fmt.Sprintf("(select (select %s (sl_ref %s)) (+ (sl_off %s) %s))", s.heap(hn, hs), base.S, base.S, idx.S)})
+		return fr.readFact(s, &Val{T: u.Elem(), S: fmt.Sprintf("(select (select %s (sl_ref %s)) (ix (sl_off %s) %s))", s.heap(hn, hs), base.S, base.S, idx.S)})
 	case *types.Array:
 		if idx.Const == nil {
 			fr.vc.oblige(s, "idx", fmt.Sprintf("(and (<= 0 %s) (< %s %d))", idx.S, idx.S, u.Len()), pos, "index out of range")
